@@ -7,6 +7,23 @@ From PC.Base Require Import Assoc.
 From PC.Sup Require Import Model Monitors Tactics Sim ObsFacts Effects RelCore.
 Import ListNotations RecordSetNotations.
 
+(* the hardened model wraps states in stage updates: the old fields read through them *)
+Lemma stg_insts v s : insts (s <| stage := v |>) = insts s. Proof. reflexivity. Qed.
+Lemma stg_viss v s : viss (s <| stage := v |>) = viss s. Proof. reflexivity. Qed.
+Lemma stg_confs v s : confs (s <| stage := v |>) = confs s. Proof. reflexivity. Qed.
+Lemma stg_running v s : running (s <| stage := v |>) = running s. Proof. reflexivity. Qed.
+Lemma stg_donereg v s : donereg (s <| stage := v |>) = donereg s. Proof. reflexivity. Qed.
+Lemma stg_threads v s : threads (s <| stage := v |>) = threads s. Proof. reflexivity. Qed.
+Lemma stg_thinst v s : thinst (s <| stage := v |>) = thinst s. Proof. reflexivity. Qed.
+Lemma stg_reg_lock v s : reg_lock (s <| stage := v |>) = reg_lock s. Proof. reflexivity. Qed.
+Lemma stg_sd_active v s : sd_active (s <| stage := v |>) = sd_active s. Proof. reflexivity. Qed.
+Lemma stg_ordered v s : ordered (s <| stage := v |>) = ordered s. Proof. reflexivity. Qed.
+Lemma stg_wg v s : wg (s <| stage := v |>) = wg s. Proof. reflexivity. Qed.
+Lemma stg_vis_of v s n : vis_of (s <| stage := v |>) n = vis_of s n. Proof. reflexivity. Qed.
+Lemma stg_get_thread v s th : get_thread (s <| stage := v |>) th = get_thread s th. Proof. reflexivity. Qed.
+#[export] Hint Rewrite stg_insts stg_viss stg_confs stg_running stg_donereg stg_threads stg_thinst stg_reg_lock
+  stg_sd_active stg_ordered stg_wg stg_vis_of stg_get_thread : sup.
+
 (* ---- program-counter classes ------------------------------------------------------------------------ *)
 Definition early_pc (p : ipc) : bool :=
   match p with IDeps _ | IBlocked _ _ _ _ | ISkipDecided => true | _ => false end.
